@@ -38,7 +38,7 @@ OPS_QUICK = ['str', 'external_references', 'iterate', 'is_fully_typed', 'eq_hash
              'but_unchanged', 'but_lit_num', 'but_lit_str', 'but_lit_bool', 'but_metadata', 'simplify', 'split_and',
              'refactor_reference', 'replace_this_with_var', 'replace_var_with_this', 'replace_var_with_literal',
              'negate', 'join_self', 'canonical_form', 'type_check_references', 'publish_event',
-             'contains_reference', 'contains_self_reference']
+             'contains_reference', 'contains_self_reference', 'get_conjuncts', 'get_disjuncts', 'sanity_check', 'aliases_events', 'repr']
 SELS = ['root', 'child1', 'child2', 'grandchild', 'refleaf', 'result']
 
 
@@ -120,6 +120,23 @@ def apply(op, o, root):
             o.contains_reference('A')
         elif op == 'iterate':
             list(o.iterate())
+        elif op == 'repr':
+            repr(o)
+        elif op in ('get_conjuncts', 'get_disjuncts'):
+            if not (isexpr or ispred):
+                return NA
+            getattr(R, op)(o)
+        elif op == 'sanity_check':
+            if not hasattr(o, 'sanity_check'):
+                return NA
+            o.sanity_check()
+        elif op == 'aliases_events':
+            if isinstance(o, HplProperty):
+                [list(e.simple_events()) + list(e.aliases()) for e in o.events()]
+            elif hasattr(o, 'aliases'):
+                list(o.aliases()), list(o.simple_events())
+            else:
+                return NA
         elif op == 'cast_same':
             if not isexpr:
                 return NA
